@@ -3,6 +3,8 @@ package main
 import (
 	"fmt"
 	"os"
+	"strconv"
+	"strings"
 
 	"gosym/sym"
 )
@@ -14,9 +16,18 @@ func main() {
 		os.Exit(2)
 	}
 	fmt.Println("loaded in", p.LoadTime)
-	h := &sym.Harness{Pkg: os.Args[1], Func: os.Args[2], Verbose: true}
-	if len(os.Args) > 3 && os.Args[3] == "trace" {
-		h.Cfg.Trace = true
+	h := &sym.Harness{Pkg: os.Args[1], Func: os.Args[2]}
+	h.Verbose = os.Getenv("V") != ""
+	for _, a := range os.Args[3:] {
+		if a == "trace" {
+			h.Cfg.Trace = true
+		} else if i := strings.Index(a, "="); i > 0 {
+			v, _ := strconv.ParseInt(a[i+1:], 10, 64)
+			if h.SetGlobals == nil {
+				h.SetGlobals = map[string]int64{}
+			}
+			h.SetGlobals[a[:i]] = v
+		}
 	}
 	rep := p.Explore(h)
 	fmt.Printf("paths=%d completed=%d aborted=%d stopped=%d queries=%d (sat %d unsat %d unknown %d) solver=%v wall=%v steps=%d asserts=%d trivial=%d\n",
